@@ -30,19 +30,24 @@ def append_only_spec(ctx=None):
 class KeyGen:
     def __init__(self, rnd, mode=None):
         self.rnd = rnd
-        self.mode = mode or rnd.choice(["var", "var", "fix2", "k32", "dense", "dense"])
-        if self.mode == "k32":
-            base = bytes(rnd.randrange(256) for _ in range(32))
+        self.mode = mode or rnd.choice(["var", "var", "fix2", "k32", "dense", "dense",
+                                        "var", "var", "fix2", "k32", "dense", "dense", "k40"])
+        if self.mode in ("k32", "k40"):
+            # k40: keys LONGER than a hash (33..40 bytes): kv nodes whose packed key path
+            # alone exceeds 32 bytes
+            nb = 32 if self.mode == "k32" else rnd.choice([33, 34, 40])
+            W = 8 * nb
+            base = bytes(rnd.randrange(256) for _ in range(nb))
             self.pool = [base]
             bi = int.from_bytes(base, "big")
             for _ in range(rnd.randint(3, 8)):
                 # share exactly nbits leading bits with the base key
-                nbits = rnd.randrange(0, 256)
-                keep = ((1 << 256) - 1) ^ ((1 << (256 - nbits)) - 1)
-                low = rnd.getrandbits(255 - nbits) if nbits < 255 else 0
-                flip = ((bi >> (255 - nbits)) & 1) ^ 1
-                other = (bi & keep) | (flip << (255 - nbits)) | low
-                self.pool.append(other.to_bytes(32, "big"))
+                nbits = rnd.randrange(0, W)
+                keep = ((1 << W) - 1) ^ ((1 << (W - nbits)) - 1)
+                low = rnd.getrandbits(W - 1 - nbits) if nbits < W - 1 else 0
+                flip = ((bi >> (W - 1 - nbits)) & 1) ^ 1
+                other = (bi & keep) | (flip << (W - 1 - nbits)) | low
+                self.pool.append(other.to_bytes(nb, "big"))
 
     def key(self):
         rnd = self.rnd
@@ -51,7 +56,7 @@ class KeyGen:
         if self.mode == "dense":
             # neighbouring byte values: kv nodes that start at the last bit of a byte
             return bytes(rnd.choice([0, 1, 2, 3, 0xFE, 0xFF]) for _ in range(rnd.randint(1, 2)))
-        if self.mode == "k32":
+        if self.mode in ("k32", "k40"):
             return rnd.choice(self.pool)
         return bytes(rnd.choice(ALPHA) for _ in range(rnd.randint(1, 3)))
 
